@@ -7,7 +7,7 @@ import ast
 from ..cfg import build_cfg, calls_in, node_calls
 from ..core import Ctx, property_info, rule
 from ..model import AnalysisError, FuncInfo, walk_no_nested
-from ..q import A, MUTATORS, asrc, call_name_of, control_deps, none_cond, raw_forms, return_values, is_self_attr, kwarg, root_name, stores, unparse
+from ..q import A, MUTATORS, family, expand, reach_table, cmp_atom, value_texts, passes, node_containing, leaves_at, func_text, asrc, call_name_of, control_deps, none_cond, raw_forms, return_values, is_self_attr, kwarg, root_name, stores, unparse
 
 PAR = "xsdata.formats.dataclass.parsers"
 
@@ -201,6 +201,10 @@ def flag_liveness_and_overrides(ctx: Ctx) -> None:
         uses = [c for c in calls_in(fi.node) if kwarg(c, "config") is not None]
         ctx.ob(f"{q.split(':')[1]}: every candidate parser/decoder receives the strict config", bool(uses) and all(unparse(kwarg(c, "config")) == cfg_name for c in uses), at=fi,
                construct="strict config used", msg="the strict copy is built but not used")
+        # ... and it is derived from the options in force for THIS call: nothing built from self.config is kept on the instance
+        kept = [(f, st) for f in family(ctx.repo, fi) for st, tgt, v in stores(f.node) if is_self_attr(tgt) and v is not None and "self.config" in unparse(expand(f.node, v))]
+        ctx.ob(f"{q.split(':')[1]}: the strict copy of the options is made per call (not kept on the instance)", not kept, at=kept[0][0] if kept else fi, node=kept[0][1] if kept else None,
+               construct="strict config per call", msg="a parser / decoder built from self.config is memoised on the instance: options changed between calls (fail_on_unknown_properties ...) are ignored for nested candidates")
 
 
 @rule("C10.R6")
@@ -224,3 +228,12 @@ def unknown_children_of_simple_elements(ctx: Ctx) -> None:
         ctx.ob(f"{s_.name}.child raises for an unexpected child only if fail_on_unknown_properties", ok, at=ch, node=raises[0], construct=f"{s_.name}.child raise",
                msg="an unknown child element inside this element fails the parse even with fail_on_unknown_properties=False (the option promises that unknown elements do not change the result)")
     ctx.floor("node classes whose child() can raise", n, 3)
+
+
+from .c01 import wrapper_filter_exact  # noqa: E402
+
+
+@rule("C10.R7")
+def wrapped_items_compete_only_for_their_wrapper(ctx: Ctx) -> None:
+    """An element inside a wrapper is matched only against fields of that wrapper: an unknown element that reuses the name of an unwrapped sibling field is rejected / skipped like any unknown."""
+    wrapper_filter_exact(ctx)
